@@ -340,7 +340,7 @@ func srtRenderDoc(cs []srtCue, o srtRender, r *fw.Rand) []byte {
 		case 0:
 			b.WriteString(strconv.Itoa(c.Index) + o.eol)
 		case 2:
-			b.WriteString(fw.Pick(r, []string{"abc", "#1", "1a", "x 2", "--"}) + o.eol)
+			b.WriteString(fw.Pick(r, []string{"abc", "#1", "1a", "x 2", "--", "20240131235959123456", "99999999999999999999999999", "1.5", "0x10", "\u0661\u0662", "\uff11"}) + o.eol)
 		}
 		arrow := []string{" --> ", "-->", "\t-->\t", "  -->  ", " -->"}[o.arrow]
 		b.WriteString(srtFmtTime(c.Start, o) + arrow + srtFmtTime(c.End, o))
